@@ -37,6 +37,7 @@ import (
 	"go.uber.org/zap"
 
 	"github.com/ozontech/seq-db/cache"
+	"github.com/ozontech/seq-db/conf"
 	"github.com/ozontech/seq-db/disk"
 	"github.com/ozontech/seq-db/frac"
 	"github.com/ozontech/seq-db/frac/processor"
@@ -455,6 +456,173 @@ func collectorRandom(ch *vh.Channel, r *vh.RNG, n int) {
 			ms[0].size = 0
 		}
 		addCollCase(ch, uint32(r.Intn(5)), ms, app, seqLIDs(r.Range(1, 100), keptCount(ms, app)), "gen=random")
+	}
+}
+
+// ---------------------------------------------------------------- channel: ONE collector reused over many bulks
+
+type reuseStep struct {
+	block uint32
+	ms    []meta
+	app   []seq.ID // nil: no Filter
+}
+
+// runReuse drives ONE real collector through all steps, as an index worker does, and returns the per-step states
+// plus how often the capacity of TokensValues / IDs dropped (= the ReallocSolver re-allocated).
+func runReuse(steps []reuseStep) (res string, tvRealloc, idsRealloc int) {
+	defer func() {
+		if r := recover(); r != nil {
+			res = fmt.Sprintf("panic %v", r)
+		}
+	}()
+	c := frac.VerifNewCollectorC17()
+	var parts []string
+	prevIDs, _, prevTV := c.Caps()
+	for _, st := range steps {
+		c.Init(st.block)
+		ci, _, ct := c.Caps()
+		if ct < prevTV {
+			tvRealloc++
+		}
+		if ci < prevIDs {
+			idsRealloc++
+		}
+		for _, m := range st.ms {
+			c.AppendMeta(m.metaData())
+		}
+		if st.app != nil {
+			c.Filter(st.app)
+		}
+		s := c.State()
+		gs := c.GroupLIDsByToken(seqLIDs(1, len(s.IDs)))
+		p := make([]string, len(gs))
+		for i, g := range gs {
+			p[i] = vh.JoinInts(g)
+		}
+		pos := make([]uint64, len(s.Positions))
+		for i, x := range s.Positions {
+			pos[i] = uint64(x)
+		}
+		parts = append(parts, fmt.Sprintf("min=%d max=%d docs=%d size=%d tv=%s fl=%s ids=%s tid=%s ti=%s pos=%s groups=%s",
+			uint64(s.MinMID), uint64(s.MaxMID), s.DocsCounter, s.SizeCounter, hexList(s.TokensValues), vh.JoinInts(s.FieldsLengths),
+			fmtIDs(s.IDs), vh.JoinInts(s.TokensInDocs), vh.JoinInts(s.TokensIndex), vh.JoinInts(pos), vh.JoinStrs(p, ";")))
+		prevIDs, _, prevTV = c.Caps()
+	}
+	return "ok " + strings.Join(parts, "#"), tvRealloc, idsRealloc
+}
+
+func reuseReq(r *vh.RNG, steps []reuseStep) string {
+	p := make([]string, len(steps))
+	prevHadTokens := false
+	for i, st := range steps {
+		// the model's theorem holds for every solver decision; pick them pseudo-randomly (re-allocating TokensValues
+		// while it is empty divides by zero in Init - never asked for)
+		dec := []byte("kkkk")
+		for j := range dec {
+			if r.Chance(1, 3) && (j != 3 || prevHadTokens) {
+				dec[j] = 'r'
+			}
+		}
+		app := "*"
+		if st.app != nil {
+			app = fmtIDs(st.app)
+		}
+		p[i] = fmt.Sprintf("%s@%d@%s@%s", dec, st.block, fmtBulk(st.ms), app)
+		prevHadTokens = false
+		for _, m := range st.ms {
+			prevHadTokens = prevHadTokens || len(m.toks) > 0
+		}
+	}
+	return "reuse " + strings.Join(p, "#")
+}
+
+// reuseDoc: document n of a long history; every fatEvery-th one carries fat extra distinct tokens
+func reuseDoc(n, fatEvery, fat int) meta {
+	m := meta{mid: uint64(100000 + n), rid: uint64(7000 + n), size: uint32(minPayload + n%7), doc: n}
+	m.toks = []tok{{[]byte("_all_"), nil}, {[]byte("service"), []byte("long")}, {[]byte("n"), []byte(strconv.Itoa(n))}}
+	if fatEvery > 0 && n%fatEvery == 0 {
+		for k := 0; k < fat; k++ {
+			m.toks = append(m.toks, tok{[]byte("tag"), []byte(fmt.Sprintf("t%d_%d", n, k))})
+		}
+	}
+	return m
+}
+
+func addReuseCase(ch *vh.Channel, r *vh.RNG, steps []reuseStep, tags ...string) {
+	req := reuseReq(r, steps)
+	impl, tv, ids := runReuse(steps)
+	filtered := 0
+	for _, st := range steps {
+		if st.app != nil {
+			filtered++
+		}
+	}
+	tags = append(tags, fmt.Sprintf("steps=%d", len(steps)), fmt.Sprintf("tv-reallocs=%d", tv), fmt.Sprintf("ids-reallocs=%d", ids))
+	ch.Add(req, impl, tv > 0 && filtered > 0, tags...)
+}
+
+func reuseCases(ch *vh.Channel, r *vh.RNG, thorough bool) {
+	n := 270
+	if thorough {
+		n = 450
+	}
+	// A. sliding retries: bulk n = [doc n-1 (already indexed), doc n (new)], Filter keeps doc n; every 15th document fat
+	for _, fat := range []int{120, 400} {
+		var steps []reuseStep
+		for i := 1; i <= n; i++ {
+			st := reuseStep{block: uint32(i - 1)}
+			if i > 1 {
+				st.ms = append(st.ms, reuseDoc(i-1, 15, fat))
+			}
+			st.ms = append(st.ms, reuseDoc(i, 15, fat))
+			if i > 1 {
+				st.app = []seq.ID{reuseDoc(i, 15, fat).id()}
+			}
+			steps = append(steps, st)
+		}
+		addReuseCase(ch, r, steps, "shape=sliding-retries", fmt.Sprintf("fat=%d", fat))
+		if !thorough {
+			break
+		}
+	}
+	// B. one huge bulk (many ids, many tokens) first, then small ones with random re-deliveries and Filter subsets
+	for rep := 0; rep < map[bool]int{false: 1, true: 3}[thorough]; rep++ {
+		var steps []reuseStep
+		next := 1
+		var sent []int
+		for i := 0; i < n; i++ {
+			st := reuseStep{block: uint32(i)}
+			cnt := r.Range(1, 3)
+			if i == 0 || i == 230 {
+				cnt = 150
+			}
+			var fresh []seq.ID
+			for j := 0; j < cnt; j++ {
+				if len(sent) > 0 && cnt < 10 && r.Chance(2, 5) {
+					d := sent[len(sent)-1-r.Intn(min(len(sent), 4))]
+					dup := false
+					for _, m := range st.ms {
+						dup = dup || m.doc == d
+					}
+					if !dup {
+						st.ms = append(st.ms, reuseDoc(d, 40, 200))
+						continue
+					}
+				}
+				st.ms = append(st.ms, reuseDoc(next, 40, 200))
+				fresh = append(fresh, reuseDoc(next, 40, 200).id())
+				sent = append(sent, next)
+				next++
+			}
+			if len(fresh) != len(st.ms) {
+				st.app = fresh
+				if st.app == nil {
+					st.app = []seq.ID{}
+				}
+			}
+			steps = append(steps, st)
+		}
+		addReuseCase(ch, r, steps, "shape=huge-then-small")
 	}
 }
 
@@ -1151,15 +1319,34 @@ func mergeCases(ch *vh.Channel, r *vh.RNG, n int) {
 type sysCase struct {
 	k   int      // number of documents in the universe
 	ops []string // B<i.j.k>  C<n>:<i.j.k>  S  R
+	// long histories (`sysl`): ONE index worker (its collector is reused for every bulk, the ReallocSolvers fire after
+	// 200 bulks), every fat-th document carries fatToks extra tokens, checks only after S / R / every 60th op / the end
+	long bool
+	fat  int
 }
 
+const fatToks = 400
+
+var sysFatEvery = 0 // set by runSys for the case at hand
+
 func (c sysCase) String() string {
+	if c.long {
+		return fmt.Sprintf("sysl docs=%d fat=%d ops=%s", c.k, c.fat, strings.Join(c.ops, ";"))
+	}
 	return fmt.Sprintf("sys docs=%d ops=%s", c.k, strings.Join(c.ops, ";"))
 }
 
 func parseSys(line string) (sysCase, error) {
 	var c sysCase
 	var ops string
+	if strings.HasPrefix(line, "sysl ") {
+		c.long = true
+		if _, err := fmt.Sscanf(line, "sysl docs=%d fat=%d ops=%s", &c.k, &c.fat, &ops); err != nil {
+			return c, err
+		}
+		c.ops = strings.Split(ops, ";")
+		return c, nil
+	}
 	if _, err := fmt.Sscanf(line, "sys docs=%d ops=%s", &c.k, &ops); err != nil {
 		return c, err
 	}
@@ -1195,6 +1382,11 @@ func sysDoc(i int) meta {
 	m := meta{mid: uint64(1000 + 3*i), rid: uint64(500 + i), doc: i + 1, size: uint32(minPayload + 4 + 5*(i%4))}
 	m.toks = []tok{{[]byte("_all_"), nil}, {[]byte("service"), []byte(fmt.Sprintf("s%d", i%3))},
 		{[]byte("level"), []byte(fmt.Sprintf("%d", i%2))}, {[]byte("k8s_pod"), []byte(fmt.Sprintf("p%d", i))}}
+	if sysFatEvery > 0 && i%sysFatEvery == sysFatEvery-1 {
+		for k := 0; k < fatToks; k++ {
+			m.toks = append(m.toks, tok{[]byte("traceID"), []byte(fmt.Sprintf("t%d_%d", i, k))})
+		}
+	}
 	return m
 }
 
@@ -1387,6 +1579,13 @@ func checkStore(s *sysStore, k int, have map[int]bool, crossFraction bool, stage
 
 // runSys executes one history on a real store; returns nil when every check passed
 func runSys(c sysCase) *sysViolation {
+	sysFatEvery = 0
+	if c.long {
+		sysFatEvery = c.fat
+		old := conf.IndexWorkers
+		conf.IndexWorkers = 1
+		defer func() { conf.IndexWorkers = old }()
+	}
 	dir, err := os.MkdirTemp("", "c17-sys-")
 	if err != nil {
 		return &sysViolation{"harness", err.Error()}
@@ -1464,6 +1663,9 @@ func runSys(c sysCase) *sysViolation {
 			return &sysViolation{"harness", "unknown op " + op}
 		}
 		if len(have) == 0 {
+			continue
+		}
+		if c.long && op != "S" && op != "R" && n != len(c.ops)-1 && n%60 != 59 {
 			continue
 		}
 		if v := checkStore(s, c.k, have, cross, stage); v != nil {
@@ -1611,6 +1813,7 @@ func main() {
 	rng := vh.NewRNG(o.Seed)
 
 	chColl := vh.NewChannel("collector.filter", "real metaDataCollector (Init, AppendMeta, Filter(appended), GroupLIDsByToken) vs SV.Collector.collect/filter/groupLIDsByToken: stats, TokensValues, FieldsLengths, IDs, tokensInDocs, tokensIndex, packed positions, groups; non-trivial = Filter keeps some but not all metas")
+	chReuse := vh.NewChannel("collector.reuse", "ONE real metaDataCollector driven through 270+ bulks as an index worker drives it (Init with its real ReallocSolvers, AppendMeta, Filter, GroupLIDsByToken), shaped so that the solvers re-allocate (fat bulks between small ones, sliding re-deliveries) vs SV.Collector.reuseRun (solver decisions = oracle): the collector state after every bulk; non-trivial = TokensValues was re-allocated at least once and Filter ran")
 	chSet := vh.NewChannel("docspositions.setmultiple", "DocsPositions.SetMultiple vs SV.Collector.setMultiple: appended slice and resulting map; non-trivial = some but not all ids rejected")
 	chAct := vh.NewChannel("active.history", "a real frac.Active fed bulk by bulk vs SV.Collector.run: MIDs/RIDs in LID order, DocsTotal/DocsRaw/From/To, DocBlocks, sorted LIDs of every token, DocsPositions and fetched payload of every id; non-trivial = the history re-delivers at least one document")
 	chConc := vh.NewChannel("active.concurrent", "a real frac.Active under a forced schedule (bulks started one by one, each index worker held at the point after SetMultiple/Filter, then published in the scheduled order) vs SV.Collector.crun: same observations as active.history; non-trivial = a re-delivery whose collectors are published out of start order")
@@ -1634,7 +1837,7 @@ func main() {
 		for _, l := range lines {
 			f := strings.Fields(l)
 			switch {
-			case len(f) > 0 && f[0] == "sys":
+			case len(f) > 0 && (f[0] == "sys" || f[0] == "sysl"):
 				if c, err := parseSys(l); err == nil {
 					sysCases = append(sysCases, c)
 					sysTags = append(sysTags, []string{"replay", "repeat"})
@@ -1679,6 +1882,7 @@ func main() {
 			collectorExhaustive(chColl, 4, 40, int(o.Seed%40))
 		}
 		collectorRandom(chColl, rng.Fork(), o.Pick(2000, 20000))
+		reuseCases(chReuse, rng.Fork(), o.Thorough())
 		setMultipleCases(chSet, rng.Fork(), o.Pick(2000, 20000))
 		activeCases(chAct, env, rng.Fork(), o.Pick(1500, 8000))
 		concCases(chConc, rng.Fork(), o.Pick(400, 3000))
@@ -1698,6 +1902,25 @@ func main() {
 			sysCases = append(sysCases, c)
 			sysTags = append(sysTags, []string{"gen=directed", "repeat"})
 		}
+		// long histories through ONE index worker: sliding retries [doc n-1 (repeat), doc n (new)] for more bulks than
+		// the solvers' 200-sample window, fat documents in between, then seal and restart
+		for li := 0; li < o.Pick(1, 3); li++ {
+			nb := 260 + 45*li
+			lc := sysCase{k: nb, long: true, fat: []int{15, 11, 23}[li]}
+			for b := 0; b < nb; b++ {
+				if b == 0 {
+					lc.ops = append(lc.ops, "B0")
+				} else {
+					lc.ops = append(lc.ops, fmt.Sprintf("B%d.%d", b-1, b))
+				}
+				if li == 1 && b == 215 {
+					lc.ops = append(lc.ops, "R")
+				}
+			}
+			lc.ops = append(lc.ops, "S", "R")
+			sysCases = append(sysCases, lc)
+			sysTags = append(sysTags, []string{"gen=long-one-worker", "repeat", "op=seal", "op=restart"})
+		}
 		r := rng.Fork()
 		for i := 0; i < o.Pick(250, 1500); i++ {
 			c, tags := genSys(r, 10)
@@ -1711,6 +1934,7 @@ func main() {
 	flushActive(rep)
 	chColl.Exhaustive = o.Replay == ""
 	rep.AddChannel(chColl, o.Driver)
+	rep.AddChannel(chReuse, o.Driver)
 	rep.AddChannel(chSet, o.Driver)
 	rep.AddChannel(chAct, o.Driver)
 	rep.AddChannel(chConc, o.Driver)
